@@ -248,6 +248,10 @@ def run_property(pid, tier, rules, seed=0, record_floors=False, replay_key=None,
         print("%s %s: %d rules, %d evaluations, %d findings (%d known), %d violations, %.1fs" % (
             pid, tier, len(reports), sum(r.evaluations for r in reports),
             sum(len(r.findings) for r in reports), len(known_hit), len(viol), wall))
+    # a violation found is reported as such even if another rule could not run (floor/anchor);
+    # exit 2 only when nothing but broken rules remains
+    if viol:
+        return 1, reports
     if broken:
         return 2, reports
-    return (1 if viol else 0), reports
+    return 0, reports
